@@ -85,10 +85,35 @@ m = {
  "not_applicable": [],
  "notes": "see DESIGN.md; known_findings.json lists genuine defects (open = reported as KNOWN-FINDING, fixed = repaired by a fix: commit in /repo)",
 }
+# what the later strengthening rounds added to each input space (DESIGN.md section 9.7 tells why)
+ALSO = {
+ "C01": "bulk removals at scale (every subset of up to 6 / 8 members of every container kind, as list and as set, against the obvious model); positions that are negative, past the end or not an index",
+ "C02": "the same bulk removals and odd positions on cells that have instances; views of instance pins held across the events",
+ "C03": "texts with nets declared twice under case-variant identifiers, instances repeating a sibling's name, identifiers at the length limit, twelve siblings sharing 255 characters, pipelines through uniquify / flatten / clone before the export",
+ "C04": "the written text read after sources the reader rejected half-way; constants x/X/z/Z, assigns inside one bus, a four-bit port fed with inner bits exchanged, cross-named alias ports, positional maps on never-declared modules",
+ "C05": "nets declared twice, duplicate instance names, identifiers of 255 / 256 characters, the rich spellings of the supported constructs",
+ "C06": "thorough: port widths up to 5 and three-item concatenations; a chain twelve modules deep in 28 orders; positional maps on a never-declared module used several times; the design read together with a device library (every subset of library cells, every order, both styles, a cell lacking a port); no two elements share a metadata container",
+ "C07": "reference sets of a dozen members; views of reference sets and instance pins held across the clones",
+ "C08": "the shape family (every sharing shape of a hierarchy up to five levels deep); a prelude of refused calls; a second round adding sharing below the first level; a shared cell outside any library; the suffix counter preset to 9 / 99 / 999; taken identifiers",
+ "C09": "the shape family; a prelude of refused calls; fourteen taken candidate identifiers; a cell in another library under the top cell's name; the flattened cell reused",
+ "C10": "exact lookups asked before an event and read after it; identifier length boundaries; reader-built netlists and their clones",
+ "C11": "the shape family; edits that are undone, renaming edits (names of held references follow), a prelude of refused calls, case twins and the non-default pattern options, pins named through an equal handle",
+ "C12": "the shape family; starts given as one-shot iterators and as a list the caller keeps (asked twice), the caller's filter, edits through an equal handle, a prelude of refused calls",
+ "C13": "independent baselines for the unfiltered results; a pattern list gives the union of its patterns (lists of up to twelve); upper-case class escapes; histories of pops, renames and refused adds; the plugin switched off and on again",
+ "C14": "a bulk call naming a stranger, and a connect of a connected pin however it is named, must be refused",
+ "C15": "readers given open handles (text / binary files, StringIO, BytesIO, temporary files), intact and cut, with the policy switched between making and running the reader; references spelled like an element's original name; the instantiation-graph family; file-level faults",
+ "C16": "refused writes (netlist unchanged, the same refusal when asked again); a chain of 40 cells and 6 layers of 8 in one library; identifiers not derived from names; a comment stored as a plain string",
+ "C17": "copies added after an export (also under a case-variant identifier), refused adds under the EDIF policy before an export, names with edge blanks, siblings inserted in front under the EDIF policy",
+ "C18": "port lists split over several statements, nets named like black-box ports, a refused draft between two files, writing without .cname, parse-rename-copy-write-read",
+ "C19": "single-hook and all-but-one listeners, a listener vetoing the first announcement, constructors given a properties dictionary, 2-5 listeners with every proper subset removed again (registration order)",
+ "C20": "compare-edit-compare, widened-then-narrowed bundles, in-place property edits on a clone, the top instance dropped, a property added / re-typed, the same comparer asked twice, twelve-bit buses next to digit-ending one-bit ports",
+}
 props = [json.loads(l)["id"] for l in open(os.path.join(HERE, "properties.jsonl"))]
 for pid in props:
     if pid in CHECKS:
         eng, cat, tech, text, note = CHECKS[pid]
+        if pid in ALSO:
+            text = text + ". Added by the strengthening rounds: " + ALSO[pid]
         m["checks"].append({
             "property_id": pid, "quick_cmd": "./vcheck %s --tier quick" % pid, "thorough_cmd": "./vcheck %s --tier thorough" % pid,
             "evidence_file": "/verif/evidence/%s.json" % pid, "replay_cmd_template": "./vcheck %s --replay {path}" % pid,
